@@ -3,9 +3,9 @@
 
    Model: coq/Model/Loader.v — the loader logic of src/pdf_lib/pdf_traverse_xref.rs over the abstraction
    "offset ↦ what the byte-level parsers find there" (those parsers: C02 C05 C13 C14 C06 C07).
-   [load p] is parse_data; [sections f flen c o S c'] describes, by the contents of the file only, the chain
+   [load p] is parse_data; [sections f flen o S] describes, by the contents of the file only, the chain
    of cross-reference sections (classic table / xref stream / hybrid) linked by /Prev from offset [o]:
-   S lists them newest first as (offset, entries, /Root); c' are the xref-stream objects.
+   S lists them newest first as (offset, entries, /Root).
    [resolve f E id] with E = all_ents S (entries of all sections, newest section first) is the specification:
    the entry for the object number in the most recent revision that mentions it decides; free, other
    generation or no entry ⇒ not defined. *)
@@ -21,36 +21,31 @@ Proof. exact lookup_first_per_key. Qed.
 
 (* C04_resolve on the current tree = C04_except_known.  For every history (any number of revisions, any mix
    of tables / xref streams / hybrid sections, objects in the file or in object streams, direct or referenced
-   /Length) every identifier is bound to what [resolve] says — the newest revision that mentions the number
-   wins, a newest free entry (of ANY generation, since commit f2e753d) hides the object — the root is the one
-   of the newest section, and nothing else is bound except the xref-stream objects themselves.
-   The three numbered hypotheses are the complements of the known classes of findings:
-   (2) C04-xref-stream-id-reuse, (3) C03-length-in-objstm (inside [good]), (4) C04-stale-objstm-member. *)
-Theorem C04_except_known : forall p S c0 rn rg sx,
+   /Length) the context binds every identifier to exactly what [resolve] says — the newest revision that
+   mentions the number wins; a newest free entry of ANY generation hides the object (commit f2e753d); an
+   xref-stream object does not shadow a newer definition of its id (commit 4807949) — and the root is the one
+   of the newest section.  Hypotheses (3) and (4) are the complements of the two open classes of findings:
+   (3) C03-length-in-objstm (inside [good]: a referenced /Length names an in-file integer object),
+   (4) C04-stale-objstm-member (every member of an object stream that is in use is current). *)
+Theorem C04_except_known : forall p S rn rg sx,
   p_magic p = true -> p_startxref p = Some sx -> (sx <? p_flen p)%N = true ->
-  sections (p_file p) (p_flen p) [] sx S c0 ->
+  sections (p_file p) (p_flen p) sx S ->
   NoDup (map s_off S) ->
   match S with s :: _ => s_root s = Some (ORef rn rg) | [] => False end ->
-  (forall id, ctx_get c0 id <> None ->                                                                        (* (2) *)
-     lookup_ent (all_ents S) (fst id) = None \/
-     exists e ofs nx ents rt pv, lookup_ent (all_ents S) (fst id) = Some e /\ x_id e = id /\ x_st e = XInUse ofs /\
-                                 find (p_file p) ofs = Some (IXStm id ents rt pv, nx)) ->
-  (forall e ofs, In e (first_per_key (all_ents S)) -> x_st e = XInUse ofs -> ctx_get c0 (x_id e) = None ->   (* (3) *)
-     good (p_file p) (p_flen p) c0 (info_from_xref_entries (first_per_key (all_ents S))) (x_id e) ofs) ->
+  (forall e ofs, In e (first_per_key (all_ents S)) -> x_st e = XInUse ofs ->                                  (* (3) *)
+     good (p_file p) (p_flen p) [] (info_from_xref_entries (first_per_key (all_ents S))) (x_id e) ofs) ->
   (forall e stm idx ms n v, In e (first_per_key (all_ents S)) -> x_st e = XInStream stm idx ->                (* (4) *)
      container (p_file p) (all_ents S) stm = Some ms -> In (n, v) ms ->
      exists idx', lookup_ent (all_ents S) n = Some (mkxent n 0 (XInStream stm idx'))) ->
   (forall e stm idx ms, In e (first_per_key (all_ents S)) -> x_st e = XInStream stm idx ->
      container (p_file p) (all_ents S) stm = Some ms -> NoDup (map fst ms)) ->
-  exists c, load p = Loaded c (rn, rg) /\
-            forall id, ctx_get c id = match resolve (p_file p) (all_ents S) id with Some v => Some v | None => ctx_get c0 id end.
+  exists c, load p = Loaded c (rn, rg) /\ forall id, ctx_get c id = resolve (p_file p) (all_ents S) id.
 Proof. exact load_history. Qed.
 
 (* the hypotheses are satisfiable (two revisions: xref stream + object stream + forward /Length, then a table
    that redefines, adds and frees with the incremented generation) *)
 Theorem C04_except_known_nonvacuous :
-  exists c, load ex_pdf = Loaded c (1, 0)%N /\
-            forall id, ctx_get c id = match resolve (p_file ex_pdf) (all_ents ex_S) id with Some v => Some v | None => ctx_get ex_c0 id end.
+  exists c, load ex_pdf = Loaded c (1, 0)%N /\ forall id, ctx_get c id = resolve (p_file ex_pdf) (all_ents ex_S) id.
 Proof. exact ex_hyps. Qed.
 
 (* C04_resolve without hypothesis (4) is refuted: an update redefines 6 0 while the base revision keeps 6 and 7
@@ -58,33 +53,32 @@ Proof. exact ex_hyps. Qed.
    stale copy of 6 0 also overwrote the new value: repaired by commit f218988 in pdf_obj.rs) *)
 Theorem C04_resolve_refuted_stale_member :
   p_magic w_stale_member = true /\ p_startxref w_stale_member = Some 316%N /\
-  sections (p_file w_stale_member) (p_flen w_stale_member) [] 316%N S_stale [((11, 0)%N, VXStm)] /\
+  sections (p_file w_stale_member) (p_flen w_stale_member) 316%N S_stale /\
   NoDup (map s_off S_stale) /\
   resolve (p_file w_stale_member) (all_ents S_stale) (6, 0)%N = Some (VObj (OInt 99)) /\
   resolve (p_file w_stale_member) (all_ents S_stale) (7, 0)%N = Some (VObj (OInt 2)) /\
   get (load w_stale_member) (6, 0)%N = Some (VObj (OInt 99)) /\ get (load w_stale_member) (7, 0)%N = None.
 Proof. exact stale_member_refutes. Qed.
 
-(* … and without hypothesis (2): the base revision's xref stream is object 11 0 and an update defines 11 0 obj 777:
-   the old xref stream stays bound; two revisions whose xref streams are both 11 0 are rejected *)
-Theorem C04_resolve_refuted_xref_stream_id :
-  p_magic w_xstm_shadow = true /\ p_startxref w_xstm_shadow = Some 221%N /\
-  sections (p_file w_xstm_shadow) (p_flen w_xstm_shadow) [] 221%N S_shadow [((11, 0)%N, VXStm)] /\
-  NoDup (map s_off S_shadow) /\
+(* former refutations that the repaired code now satisfies (witnesses kept in corpus/c04.txt):
+   an update defines 11 0 obj 777 where 11 0 was the base revision's xref stream; two revisions whose xref
+   streams are both object 11 0 *)
+Theorem C04_xref_stream_id_fixed :
+  sections (p_file w_xstm_shadow) (p_flen w_xstm_shadow) 221%N S_shadow /\
   resolve (p_file w_xstm_shadow) (all_ents S_shadow) (11, 0)%N = Some (VObj (OInt 777)) /\
-  get (load w_xstm_shadow) (11, 0)%N = Some VXStm /\
-  load w_xstm_twice = Rejected.
-Proof. exact xref_stream_id_refutes. Qed.
+  get (load w_xstm_shadow) (11, 0)%N = Some (VObj (OInt 777)) /\
+  is_loaded (load w_xstm_twice) = true.
+Proof. exact xref_stream_id_fixed. Qed.
 
-(* a /Prev chain that revisits an offset is rejected … ([follows f flen c o l pv]: started at o the loop visits
+(* a /Prev chain that revisits an offset is rejected … ([follows f flen o l pv]: started at o the loop visits
    the offsets l and is left with the /Prev value pv) *)
 Theorem C04_prev_cycle : forall p,
-  (exists sx l t, p_startxref p = Some sx /\ follows (p_file p) (p_flen p) [] sx l (Some t) /\ In t l) -> load p = Rejected.
+  (exists sx l t, p_startxref p = Some sx /\ follows (p_file p) (p_flen p) sx l (Some t) /\ In t l) -> load p = Rejected.
 Proof. exact load_prev_cycle. Qed.
 
 (* … and so is one that points outside the file *)
 Theorem C04_prev_oob : forall p,
-  (exists sx l t, p_startxref p = Some sx /\ follows (p_file p) (p_flen p) [] sx l (Some t) /\ (p_flen p <= t)%N) -> load p = Rejected.
+  (exists sx l t, p_startxref p = Some sx /\ follows (p_file p) (p_flen p) sx l (Some t) /\ (p_flen p <= t)%N) -> load p = Rejected.
 Proof. exact load_prev_oob. Qed.
 
 (* the traversal terminates: the fuel [load] gives the loop (number of offsets of the file + 2) never runs out,
@@ -100,7 +94,7 @@ Print Assumptions C04_merge_lookup.
 Print Assumptions C04_except_known.
 Print Assumptions C04_except_known_nonvacuous.
 Print Assumptions C04_resolve_refuted_stale_member.
-Print Assumptions C04_resolve_refuted_xref_stream_id.
+Print Assumptions C04_xref_stream_id_fixed.
 Print Assumptions C04_prev_cycle.
 Print Assumptions C04_prev_oob.
 Print Assumptions C04_chain_terminates.
